@@ -249,7 +249,7 @@ def _apply_loops(body, loops_spec, break_to_return, proofs, ex, label, ret_type=
             raise ExtractError(f'{label}: rule R4 side condition failed: loop is not the sole/tail expression of the function body')
         # side condition 2: no nested loop, no closure (every `break` then belongs to this loop)
         inner = m[bopen + 1:bclose]
-        if re.search(r'\b(loop|while|for)\b', inner) or re.search(r'\|[^|]*\|\s*[{(a-zA-Z_]', _closure_probe(inner)):
+        if re.search(r'\b(loop|while|for)\b', inner) or _has_closure(inner):
             raise ExtractError(f'{label}: rule R4 side condition failed: nested loop or closure inside the loop')
         if re.search(r'\bbreak\b\s*[;,}]', inner) or re.search(r"\bbreak\s+'", inner):
             raise ExtractError(f'{label}: rule R4: value-less or labelled break present')
@@ -314,10 +314,26 @@ def _post_as_loop_ensures(contract, retname):
     return t.strip() + '\n'
 
 
+_CLOSURE = re.compile(r'\|\s*((?:mut\s+)?&?\s*[a-z_][a-z0-9_]*(?:\s*:\s*[^|,]+)?(?:\s*,\s*(?:mut\s+)?&?\s*[a-z_][a-z0-9_]*(?:\s*:\s*[^|,]+)?)*)?\s*\|')
+
+
+def _has_closure(inner_mask):
+    """True if the (masked) text contains a closure `|params| body`. Or-patterns (`A(_) | B(_)`, `X::A | X::B`) and the
+    leading bars of match arms are not closures: a closure's parameter list is empty or lower-case binders only, and it is
+    preceded by `(`, `,`, `=`, `{`, `;` or a keyword, never by `)` / an identifier / a literal."""
+    for m in _CLOSURE.finditer(inner_mask):
+        pre = inner_mask[:m.start()].rstrip()
+        if not pre:
+            continue
+        last = pre[-1]
+        if last in '(,=;' or pre.endswith('move') or pre.endswith('return'):
+            # `{`/newline-leading bars are match arms; `(`, `,`, `=` introduce expressions
+            return True
+    return False
+
+
 def _closure_probe(inner):
-    # match arms start with `|` in this code base's style (`| pat => ..`); remove leading arm bars so
-    # that only genuine closures `|x| expr` remain for the closure test.
-    return re.sub(r'(?m)^\s*\|', ' ', inner)
+    return inner
 
 
 def extract_fn(repo, header, contract, ex, body_only=False):
